@@ -34,8 +34,8 @@ ASSUMPTIONS = [
 EXPECTED_PROBES = ["fault.RepackerError", "fault.MemoryError", "fault.ValueError", "state.fallback_used", "overflow.resolved", "mode.True", "mode.None", "mode.False", "no_uharfbuzz", "second_compile", "gen.pairs", "gen.manylookups", "gen.ligatures", "gen.unpackable", "shaping.nonidentity"]
 
 TIERS = {
-    "quick": {"budget_s": 170, "determinism_sample": 8, "n": {"corpus": 1400, "fea": 900, "gen": 96}, "minimise_s": 40, "max_minimise": 3},
-    "thorough": {"budget_s": 1700, "determinism_sample": 80, "n": {"corpus": 15000, "fea": 8000, "gen": 1500}, "minimise_s": 120, "max_minimise": 6},
+    "quick": {"budget_s": 600, "determinism_sample": 8, "n": {"corpus": 1400, "fea": 900, "gen": 96}, "minimise_s": 40, "max_minimise": 3},
+    "thorough": {"budget_s": 5400, "determinism_sample": 80, "n": {"corpus": 15000, "fea": 8000, "gen": 1500}, "minimise_s": 120, "max_minimise": 6},
 }
 
 OUTCOMES = ["ok", "RepackerError", "MemoryError", "ValueError"]
